@@ -4,6 +4,7 @@ from concurrent.futures import ThreadPoolExecutor
 from .. import core, pipe, reprgen as RG
 from .c03 import report_compile_failures
 
+from ..core import COMMON_DIMENSIONS
 PROP = "C09"
 SIZES = dict(quick=dict(sample=220, mcV=4), thorough=dict(sample=3500, mcV=5))
 
@@ -92,6 +93,8 @@ def run(tier, seed, rep):
                        "`as` integer vs Discr and vs E's own tag; size/align vs a hand-written field-less enum with the same repr lines; "
                        "requested derives observed by using them (iterate, print under the passed-through serialize_all, parse back, hash, "
                        "COUNT); name and visibility decided by %d small programs compiled one by one" % nvis)
+    rep.cov["rule"] += ' + macro-assembled discriminants; a variant named Discriminant; bare-path and name-value pass-through on variants; type-level doc(hidden) / allow / cfg_attr pass-through'
+    rep.cov["rule"] += COMMON_DIMENSIONS
     rep.cov["samples"] = [e for e in evs if e["op"] == "disc"][:3]
     rep.assumptions += ["the tag of a #[repr(int)] enum with fields is read through a pointer cast (guaranteed layout)"]
     return rep
